@@ -126,6 +126,8 @@ func (c *Check) peerHooks(fn *ssa.Function) peerHooks {
 
 func checkC07(c *Check) {
 	p := c.P
+	c.rendezvousChannels("C07.1 manager-sees-every-request", "transitionCh")
+	c.readerHandoffRule("C07.4 loser-reader-joined")
 	fn := p.Fn("peer.handleStateTransition")
 	if fn == nil || len(fn.Params) != 3 {
 		c.undecided("C07.anchor", "peer.handleStateTransition", "signature", "-", "expected (p, i, t)")
